@@ -39,6 +39,9 @@ def analyse_arm(body, head, variant, p_idx):
                 continue
             if ra[1].endswith("::cmp"):
                 ordc.append((op, v))
+            elif re.search(r"forms::Number as (std::cmp::)?PartialEq>::eq$", ra[1]):
+                truth = (v != 0) if op == "==" else (0 in v)
+                ordc.append(("eqv", truth))
             elif ra[1].endswith("increment_call_count"):
                 if (op == "==" and v == 0):
                     rec["icc_fail"] = True
@@ -73,7 +76,11 @@ def smt_for_arm(variant, rel, info):
     def pc(rec):
         cs = []
         for op, v in rec["ordc"]:
-            if op == "==":
+            if op == "eqv":
+                # the arm asks Number::eq instead of cmp: eq <=> ord == Equal (the arm tables of
+                # Number::eq / Number::cmp are checked for consistency separately)
+                cs.append("(= ord #x00)" if v else "(not (= ord #x00))")
+            elif op == "==":
                 cs.append("(= ord #x%02x)" % v)
             else:
                 cs.append("(and true %s)" % " ".join("(not (= ord #x%02x))" % x for x in v))
